@@ -76,6 +76,14 @@ func checkC11(w *World, r *Report) {
 	r.Rule("R11.3", "reference-following recursion is guarded against cycles by a path set: tested, inserted before and removed after the recursive descent; the grouping check sees every uses statement the expansion follows; the include-cycle check covers every submodule", 5)
 	r.guard("R11.3", func() { c11Recursion(w, r) })
 
+	r.Rule("R11.6", "no compile error is forgotten: in package compile every error result bound to a variable is examined (the two os.Open calls of the file-system feature scan are reviewed)", 1)
+	r.guard("R11.6", func() {
+		errRule(w, r, "R11.6", []string{"compile"}, map[string]string{
+			"featuresMap.getFeatures: os.Open": "feature directories: a failed Open leaves a nil *os.File whose Readdir returns an error that is tested on the next line",
+			"getSystemFeatures: os.Open": "feature directories: a failed Open leaves a nil *os.File whose Readdir returns an error that is tested on the next line",
+		})
+	})
+
 	r.Rule("R11.4", "every explicit panic in the compiler carries an error (Compiler.recover asserts e.(error) and re-raises runtime errors)", 5)
 	r.guard("R11.4", func() { c11PanicTyping(w, r) })
 
